@@ -38,16 +38,28 @@ def check_shape(ts, what):
         raise Unsupported(f"{what}: the code after the step-6 loop was not reached")
 
 
-def prepare(raw):
-    """the transition system every rule works on: carried array elements replaced by the elements (`A == pts[k]` at step 6), then every
+def prepare(base):
+    """the transition system the comparisons work on: carried array elements replaced by the elements (`A == pts[k]` at step 6), then every
     counter-only way out of a loop taken as soon as its condition is known (e7_sym.merge_exits) - the place where the source tests
-    `j < 2`, `k >= L`, `k >= j` does not matter"""
-    check_shape(raw, raw.label)
-    return Y.merge_exits(Y.drop_dead(Y.eliminate_caches(raw), with_ret=True))
+    `j < 2`, `k >= L`, `k >= j` does not matter.  (The abstract interpretation of C05-R4 and the finite-world runs use `base` itself.)"""
+    ts = Y.merge_exits(Y.drop_dead(Y.eliminate_caches(base.copy()), with_ret=True))
+    # the kernels are only ever entered with L >= 2 (C05-R7 proves it of both entry points): ways that need L < 2 do not exist
+    ex = ts.ex
+    Ln = ex.params[1]
+    if Ln in ex.frozen:
+        pre = [(V(Ln) - 2, "ge")]
+        keep = []
+        for t in ts.trans:
+            cons, disj, _ = Y.guard_of(t, ex)
+            if Y.feasible_with(cons + pre, disj):
+                keep.append(t)
+        ts.trans = keep
+    return ts
 
 
 def implementations(ctx):
-    """{(side, name): dict(ex, raw, norm, where, offsets)}"""
+    """{(side, name): dict(ex, raw0, raw, norm, where, offsets)}: raw0 = the system as executed, raw = prepared (and `!=` tests read as order
+    tests), norm = its normal form"""
     if hasattr(ctx, "_c05impl"):
         return ctx._c05impl
     out = {}
@@ -55,19 +67,19 @@ def implementations(ctx):
     ctx._c05cu = cu
     for nm in ("rainflow1", "rainflow2"):
         ex = Y.Exec(cu, nm, param_kinds=["array", "int"], label=f"C {nm}", array_len={0: 1}).run()
-        raw = prepare(Y.assign_roles(Y.build_ts(ex)))
-        check_shape(raw, f"C {nm}")
-        out[("C", nm)] = dict(ex=ex, raw=raw, where=f"{CFILE} ({nm})", offsets="os" in raw.allocs, unit=cu)
+        base = Y.assign_roles(Y.build_ts(ex))
+        check_shape(base, f"C {nm}")
+        out[("C", nm)] = dict(ex=ex, raw0=base, where=f"{CFILE} ({nm})", offsets="os" in base.allocs, unit=cu)
     pu = R.PyUnit(ctx.src.mod(PYFILE).tree)
     ctx._c05pu = pu
     for nm in ("_rainflow1", "_rainflow2"):
         fn = ctx.src.func(PYFILE, nm)
         ex = Y.Exec(pu, nm, param_kinds=["array", "int"], label=f"py {nm}", array_len={0: 1}).run()
-        raw = prepare(Y.assign_roles(Y.build_ts(ex)))
-        check_shape(raw, f"py {nm}")
-        out[("py", nm)] = dict(ex=ex, raw=raw, where=fn, offsets="os" in raw.allocs, unit=pu)
+        base = Y.assign_roles(Y.build_ts(ex))
+        check_shape(base, f"py {nm}")
+        out[("py", nm)] = dict(ex=ex, raw0=base, where=fn, offsets="os" in base.allocs, unit=pu)
     for k, d in out.items():
-        d["raw0"] = d["raw"]
+        d["raw"] = prepare(d["raw0"])
         d["raw"] = strengthen(ctx, k, d)
         d["norm"] = Y.normalise(d["raw"])
         want = k[1].endswith("2")
@@ -84,7 +96,7 @@ def analysis(ctx, key, a):
     cache = ctx.__dict__.setdefault("_c05an", {})
     if key in cache:
         return cache[key][0]
-    ts = a.get("raw0", a["raw"])
+    ts = a["raw0"]
     Ln = ts.ex.params[1]
     arrays = {b: ts.allocs[b]["n"] for b in ("pts", "cycle_index") if b in ts.allocs}
     arrays["peaks"] = V(Ln)          # C05-R7 checks that both entry points pass L = the length of the 1-D peaks array
@@ -99,23 +111,53 @@ def analysis(ctx, key, a):
     return cache[key][0]
 
 
+def states_at(an, ts, t):
+    """the inferred invariants at the source cut point of transition t (first entry and back-edge variants), intersected with t's own integer
+    tests; unreachable combinations left out"""
+    ex = ts.ex
+    g = []
+    for atom, taken in t["key"]:
+        if atom[0] == "ige":
+            d = ex.aff(atom[1])
+            g.append(("ge", d if taken else -d - 1))
+        elif atom[0] == "ieq":
+            g.append(("eq" if taken else "ne", ex.aff(atom[1])))
+    out = []
+    for v in ("e", "b"):
+        s0 = an.state.get((t["src"], v))
+        if s0 is None or s0.bottom:
+            continue
+        st = an.guard(s0, g)
+        if not st.bottom:
+            out.append(st)
+    return out
+
+
 def strengthen(ctx, key, a):
-    """loop tests written as `p != end` / `p == end` are read as the order tests they are on every reachable state: when the invariant inferred
-    at the source of a transition (plus the tests made before on the same path) proves d <= 0 (or d >= 0), the atom `d == 0` is replaced by the
-    equivalent `-d - 1 >= 0` (`d - 1 >= 0`) with the outcome negated.  An exact rewriting on reachable states; without a proving invariant the
-    atom stays as it is (and an implementation that really leaves its loop only on equality differs from one that leaves it on >=)."""
+    """the prepared system restricted to the reachable states the abstract interpretation of the same program (C05-R4's) knows of:
+    * a transition whose integer tests contradict the invariant inferred at its source is never taken and is dropped (a loop steered by a flag
+      has no `j >= 2` test of its own at the inner head - the invariant supplies it);
+    * loop tests written as `p != end` / `p == end` are read as the order tests they are on every reachable state: when the invariant (plus the
+      tests made before on the same path) proves d <= 0 (or d >= 0), the atom `d == 0` is replaced by the equivalent `-d - 1 >= 0`
+      (`d - 1 >= 0`) with the outcome negated.
+    Exact on reachable states; without a proving invariant everything stays as it is (and an implementation that really leaves its loop only
+    on equality differs from one that leaves it on >=)."""
     raw = a["raw"]
-    if not any(atom[0] == "ieq" for t in raw.trans for atom, _ in t["key"]):
-        return raw
     an = analysis(ctx, key, a)
     if an is None:
         return raw
     ex = raw.ex
     ts = raw.copy()
+    keep = []
     for t in ts.trans:
         states = [s for s in (an.state.get((t["src"], v)) for v in ("e", "b")) if s is not None and not s.bottom]
         if not states:
+            keep.append(t)
             continue
+        if not states_at(an, ts, t):
+            ts.notes.append(f"{t['src']} -> {t['dst']} when {' and '.join(('' if tk else 'not ') + Y.show(x) for x, tk in t['key'])}: excluded by the inferred invariant")
+            continue
+        keep.append(t)
         new, before = [], []
         for atom, taken in t["key"]:
             done = False
@@ -139,6 +181,7 @@ def strengthen(ctx, key, a):
             elif atom[0] == "ieq":
                 before.append(("eq" if taken else "ne", ex.aff(atom[1])))
         t["key"] = new
+    ts.trans = keep
     return ts
 
 
@@ -164,9 +207,10 @@ class RefUnit:
 
 def reference(with_offsets, astm_reference):
     ex = Y.Exec(RefUnit(astm_reference(with_offsets)), "astm_e1049", param_kinds=["array", "int"], label="ASTM E1049-85 5.4.4").run()
-    raw = prepare(Y.assign_roles(Y.build_ts(ex)))
-    check_shape(raw, "reference")
-    return dict(ex=ex, raw=raw, norm=Y.normalise(raw), where="ASTM E1049-85 5.4.4 (transcribed in verifier/c05.py)", offsets=with_offsets)
+    base = Y.assign_roles(Y.build_ts(ex))
+    check_shape(base, "reference")
+    raw = prepare(base)
+    return dict(ex=ex, raw0=base, raw=raw, norm=Y.normalise(raw), where="ASTM E1049-85 5.4.4 (transcribed in verifier/c05.py)", offsets=with_offsets)
 
 
 UNIT_NAMES = {Y.START: "initialisation (everything before the count loop)", "H1": "count loop: read the next point (push), or leave for step 6",
@@ -219,7 +263,7 @@ def _witness_fn(ctx, a, b, ka, kb, only=None):
     def wit():
         if not box:
             try:
-                box.append(W.witness(a["raw"], b["raw"], only=only, cache=cache, ka=ka, kb=kb))
+                box.append(W.witness(a["raw0"], b["raw0"], only=only, cache=cache, ka=ka, kb=kb))
             except Unsupported:
                 box.append(None)
         return box[0]
